@@ -120,6 +120,76 @@ PLAN = {
             "sim": [("sim_write", 300, 4000, 60), ("sim_cost", 300, 4000, 70), ("sim_handoff", 200, 3000, 60)]},
 }
 
+# ---- coverage goals (spec/cache/MCRistretto.tla, G_*): corner states every quick run must reach on the real cache.
+# (goal, configuration to search in); TLC -simulate with the invariant ~goal stops at the first behaviour reaching it.
+GOAL_CFG = {
+    "g_cost": {"Keys": [1, 2, 3, 4], "Hashes": [1, 2, 3, 4], "Clients": [1], "MaxOps": 16, "Ops": ["set", "get"], "BufCap": 3,
+               "Costs": [1, 2, 3], "InitMaxCost": 4, "MaxCosts": [4], "MaxGets": 4},
+    "g_write": {"Keys": [1, 2], "Hashes": [1, 2], "Clients": [1, 2], "MaxOps": 8, "Ops": ["set", "del", "wait"], "BufCap": 1,
+                "Costs": [1, 2], "InitMaxCost": 2, "MaxCosts": [2]},
+    "g_upd": {"Keys": [1, 2, 3], "Hashes": [1, 2, 3], "Clients": [1], "MaxOps": 8, "Ops": ["set", "get"], "BufCap": 3,
+              "Costs": [1, 2], "InitMaxCost": 2, "MaxCosts": [2], "MaxGets": 3},
+    "g_ttl": {"Keys": [1, 2], "Hashes": [1, 2], "Clients": [1, 2], "MaxOps": 6, "Ops": ["set", "del", "wait", "clear"], "BufCap": 2,
+              "Costs": [1], "InitMaxCost": 20, "MaxCosts": [20], "TTLs": [0, 1, 4], "MaxTime": 8},
+    "g_ttl1": {"Keys": [1, 2], "Hashes": [1, 2], "Clients": [1], "MaxOps": 6, "Ops": ["set", "del", "wait", "get"], "BufCap": 2,
+               "Costs": [1], "InitMaxCost": 20, "MaxCosts": [20], "TTLs": [0, 1, 4], "MaxTime": 8},
+    "g_clear": {"Keys": [1, 2], "Hashes": [1, 2], "Clients": [1, 2, 3], "MaxOps": 8, "Ops": ["set", "del", "wait", "clear"], "BufCap": 3,
+                "Costs": [1], "InitMaxCost": 2, "MaxCosts": [2]},
+}
+GOALS = {
+    "G_RejectWithVictims": "g_cost", "G_TwoVictims": "g_cost", "G_DuplicateVictim": "g_cost", "G_RaiseCost": "g_cost",
+    "G_DroppedUpdate": "g_write", "G_BlockedDel": "g_write", "G_UpdateOfEvicted": "g_upd",
+    "G_SweepWithBuffered": "g_ttl", "G_LateApply": "g_ttl", "G_ExpiredUnswept": "g_ttl",
+    "G_ClearWithBacklog": "g_clear", "G_ClearWhileBusy": "g_clear",
+}
+GOALS_FOR = {
+    "C02": ["G_UpdateOfEvicted", "G_DroppedUpdate", "G_ClearWhileBusy"],
+    "C03": ["G_RaiseCost", "G_TwoVictims", "G_DuplicateVictim", "G_UpdateOfEvicted"],
+    "C04": ["G_DroppedUpdate", "G_RejectWithVictims", "G_ClearWithBacklog", "G_ExpiredUnswept"],
+    "C05": ["G_BlockedDel", "G_ClearWithBacklog"],
+    "C06": ["G_LateApply1", "G_ExpiredUnswept1"],
+    "C07": ["G_ExpiredUnswept", "G_LateApply", "G_ExpiredUnswept1"],
+    "C08": ["G_BlockedDel", "G_ClearWithBacklog", "G_ClearWhileBusy"],
+    "C09": ["G_RejectWithVictims", "G_TwoVictims", "G_DuplicateVictim"],
+    "C13": ["G_RejectWithVictims", "G_BlockedDel", "G_LateApply", "G_UpdateOfEvicted"],
+    "C14": ["G_SweepWithBuffered", "G_LateApply", "G_ExpiredUnswept"],
+    "C15": ["G_ClearWithBacklog", "G_ClearWhileBusy", "G_ExpiredUnswept"],
+    "C17": ["G_RejectWithVictims", "G_DroppedUpdate", "G_UpdateOfEvicted", "G_ClearWhileBusy"],
+}
+
+
+def goal_leads(ctx, pid):
+    """Search, with TLC, one behaviour per coverage goal of the property; returns ([(cfgname, consts, steps, goal)], summary)."""
+    from concurrent.futures import ThreadPoolExecutor
+    jobs = []
+    for g in GOALS_FOR.get(pid, []):
+        single = g.endswith("1")            # the single-client variant of a TTL goal (reference traces)
+        goal = g[:-1] if single else g
+        jobs.append((g, goal, "g_ttl1" if single else GOALS[goal]))
+
+    def one(job):
+        g, goal, cfgname = job
+        cfg, c = cachelib.render_cfg(GOAL_CFG[cfgname], invariants=[goal])
+        r = vlib.tlc(ctx, cachelib.SPEC_FILES, "MCRistretto", cfg, name="goal-" + g, workers=2, timeout=300,
+                     simulate={"num": 400000, "depth": 70, "file": None}, seed=ctx.seed * 31 + 7,
+                     jvm=("-XX:ParallelGCThreads=2", "-XX:CICompilerCount=2"))
+        steps = vlib.parse_error_trace(r.out) if r.violated else []
+        return g, cfgname, c, steps, r
+
+    leads, summ = [], []
+    if not jobs:
+        return leads, summ
+    with ThreadPoolExecutor(max_workers=min(6, len(jobs))) as ex:
+        for g, cfgname, c, steps, r in ex.map(one, jobs):
+            summ.append({"goal": g, "config": cfgname, "reached": bool(steps), "behaviour_len": max(0, len(steps) - 1),
+                         "wall_s": round(r.wall, 1)})
+            if steps:
+                leads.append((cfgname + "-" + g, c, steps, g))
+            else:
+                ctx.notes.append("coverage goal %s not reached by TLC simulation within its budget" % g)
+    return leads, summ
+
+
 OBSERVERS = {"C06": ("ObsCache", "ObsRef"), "C07": ("ObsCache", "ObsRef")}
 
 # which modelled repair explains a violated invariant (value of `bad` in the last state helps)
@@ -195,6 +265,8 @@ def run(ctx, pid):
             log("design spec: %s violated in %s (lead)" % (r.violated, name))
         else:
             raise Inconclusive("TLC failed on liveness config %s: %s" % (name, r.error))
+    gleads, goal_summ = goal_leads(ctx, pid)
+    leads = leads + gleads
     groups = []   # (consts resolved, jsonl path, n)
     samples = []
     # leads first
@@ -265,7 +337,7 @@ def run(ctx, pid):
         "behaviours_replayed": total["realised"], "behaviours_unrealised": total["unrealised"],
         "replay_steps": total["steps"], "events_validated": total["events"],
         "design_counterexamples_replayed": len(leads),
-        "model_checking_runs": mcsumm, "liveness_runs": live_summ, "free_running": free_info,
+        "model_checking_runs": mcsumm, "liveness_runs": live_summ, "coverage_goals": goal_summ, "free_running": free_info,
         "samples": samples[:4],
         "exhaustive": True,
         "rule": "exhaustive TLC on the listed small configurations of Ristretto.tla; TLC -simulate behaviours of the larger "
